@@ -48,6 +48,22 @@ Met in three further rounds of independently written refactoring patches (stored
     "unchanged" for them;
   * np.add / subtract / multiply / ... and operator.add ... are the arithmetic operators; tuple(x) / list(x) of known items are the items;
     a local bound to a method (`level = idx.get_level_values`) calls that method.
+
+Fourth pass (fresh round N35, own refactorings O1..O5):
+
+  * `with` blocks are executed in place; `try` runs body / else / finally (the handlers are paths the evaluator does not follow); a loop
+    `for x in X: if test(x): raise` is the guard `if any(test(x) for x in X): raise`.  A block that is skipped although it holds a raise /
+    return is remembered (`Path.hidden`, `ctx._c18_hidden`): the rules then record failed obligations as not decided, never as violations;
+  * any / all over a one-generator comprehension is the reduction of the vector expression with the same elements (`elementwise`:
+    (c > 6 for c in X), (r[1] > 6 for r in ROWS), (a and not b for a, b in zip(A, B)));  .max() / .min() of a boolean vector is any / all;
+    len(X[M]) / X[M].size / X[M].shape[0] compared with 0 is any(M);  np.array_equal(a, b) is all(a == b);
+  * X @ (c0, c1) / X.dot((c0, c1)) / np.dot is c0*X[:, 0] + c1*X[:, 1];  X[1:] - X[:-1] is np.diff(X);  take(.., mode="clip" / "wrap") is an
+    index with the clamp / the modulus written out;  ufunc(.., out=X, where=M) stores ufunc(..)[M] in X[M];
+  * plain classes of the module are followed: `C(args)` evaluates __init__ (the attributes stored on self are the object, `Obj`), a method
+    call evaluates the method's body; types.SimpleNamespace(a=.., b=..) is an object with these attributes; a helper may return an object;
+    `(f if c else g)(args)` calls the selected function; `a, b, *rest = v` unpacks the leading items;
+  * a helper with a decorator other than lru_cache / cache / staticmethod / wraps is not inlined (functools.singledispatch, registries: the
+    body is not what a call runs).
 """
 from __future__ import annotations
 
